@@ -230,6 +230,59 @@ func c12CheckNode(n *btreeNode) string {
 	if msg := c12Equal(before, c12LogicalOf(m2)); msg != "" {
 		return "decode(encode(decode(encode(n)))): " + msg
 	}
+	// A page that was read back must also BEHAVE like the page that was written:
+	// the same change applied to it gives the same page (so that evicting or
+	// restarting never changes what a page means for the statements that follow).
+	if n.isLeaf && len(before.Keys) > 0 {
+		total := 64
+		for _, v := range before.Values {
+			total += len(v) + 16
+		}
+		for _, idx := range []int{0, len(before.Keys) / 2, len(before.Keys) - 1} {
+			d := &btreeNode{isLeaf: true}
+			if err := d.decode(bytes.NewBuffer(append([]byte{}, page...))); err != nil {
+				return fmt.Sprintf("decode failed: %v", err)
+			}
+			old := before.Values[idx]
+			grow := 0
+			if total+40 <= pageSize && len(old)+40 <= maxValueSize {
+				grow = 11 + idx%29
+			}
+			nv := make([]byte, len(old)+grow)
+			for i := range nv {
+				nv[i] = byte(0xA0 + (i+idx)%64)
+			}
+			var uerr error
+			func() {
+				defer func() {
+					if r := recover(); r != nil {
+						uerr = fmt.Errorf("panic: %v", r)
+					}
+				}()
+				uerr = d.updateCell(before.Keys[idx], nv)
+			}()
+			if uerr != nil {
+				return fmt.Sprintf("updateCell on the page read back failed: %v", uerr)
+			}
+			want := c12LogicalOf(n)
+			want.Values = append([][]byte{}, before.Values...)
+			want.Values[idx] = nv
+			if msg := c12Equal(want, c12LogicalOf(d)); msg != "" {
+				return fmt.Sprintf("after updating cell %d (value of %d bytes replaced by %d bytes) on the page read back: %s", idx, len(old), len(nv), msg)
+			}
+			buf3, err := d.encode()
+			if err != nil {
+				return fmt.Sprintf("encode after an update on the page read back failed: %v", err)
+			}
+			d2 := &btreeNode{isLeaf: true}
+			if err := d2.decode(bytes.NewBuffer(append([]byte{}, buf3.Bytes()...))); err != nil {
+				return fmt.Sprintf("decode after an update on the page read back failed: %v", err)
+			}
+			if msg := c12Equal(want, c12LogicalOf(d2)); msg != "" {
+				return fmt.Sprintf("after updating cell %d on the page read back, writing and reading it again: %s", idx, msg)
+			}
+		}
+	}
 	// route 2: through the file store with a cold cache. The file offset is
 	// remapped into a small file; the logical comparison accounts for that.
 	fs := c12GetStore()
